@@ -130,11 +130,21 @@ func (e *c20env) idNum(id string) int {
 		return c20HexBase + k
 	}
 	var n int
+	var a, b int
+	if _, err := fmt.Sscanf(id, "org%d/alice%d", &a, &b); err == nil && fmt.Sprintf("org%d/alice%d", a, b) == id && a >= 0 && a < 3 && b >= 0 && b < 300 {
+		return c20NSBase + b*3 + a
+	}
 	if _, err := fmt.Sscanf(id, "id-%d", &n); err != nil || n <= 0 || n >= c20HexBase || fmt.Sprintf("id-%d", n) != id {
 		panic("c20: id outside the numbering: " + id)
 	}
 	return n
 }
+
+// namespaced ids ("org0/alice7", "org1/alice7", ...: same last path component, different datastore
+// keys) are written "id-<c20NSBase + 3*b + a>" in operation lists
+const c20NSBase = 500000
+
+func c20NSID(n int) string { return fmt.Sprintf("org%d/alice%d", (n-c20NSBase)%3, (n-c20NSBase)/3) }
 
 func (e *c20env) registerKey(priv crypto.PrivKey) int {
 	raw, err := priv.Raw()
@@ -547,12 +557,20 @@ func (e *c20env) resolve(id string) string {
 		}
 		return "id-899999" // never created
 	}
+	var n int
+	if _, err := fmt.Sscanf(id, "id-%d", &n); err == nil && fmt.Sprintf("id-%d", n) == id && n >= c20NSBase && n < c20NSBase+900 {
+		return c20NSID(n)
+	}
 	return id
 }
 
 func (e *c20env) symbolic(id string) string {
 	if k, ok := e.pubHex[id]; ok {
 		return fmt.Sprintf("pub-%d", k)
+	}
+	var a, b int
+	if _, err := fmt.Sscanf(id, "org%d/alice%d", &a, &b); err == nil && fmt.Sprintf("org%d/alice%d", a, b) == id {
+		return fmt.Sprintf("id-%d", e.idNum(id))
 	}
 	return id
 }
@@ -709,6 +727,17 @@ func c20generate(e *c20env, p c20params, rng *rand.Rand) {
 			do(c20op{Op: "get", Inst: inst(), ID: pickID()})
 		case x == 42:
 			do(c20op{Op: "createfail", Inst: inst(), ID: fmt.Sprintf("id-%d", 700000+rng.Intn(1000))})
+		case x == 43 || x == 44:
+			// ids that share their last path component: one is created, its namesakes in the other
+			// namespaces are probed (absent unless created earlier), then it is read back
+			b, a := rng.Intn(40), rng.Intn(3)
+			who := inst()
+			if _, was := e.stored[c20NSID(c20NSBase+3*b+a)]; !was {
+				do(c20op{Op: "create", Inst: who, ID: fmt.Sprintf("id-%d", c20NSBase+3*b+a)})
+			}
+			do(c20op{Op: "has", Inst: who, ID: fmt.Sprintf("id-%d", c20NSBase+3*b+(a+1)%3)})
+			do(c20op{Op: "get", Inst: who, ID: fmt.Sprintf("id-%d", c20NSBase+3*b+(a+2)%3)})
+			do(c20op{Op: "get", Inst: inst(), ID: fmt.Sprintf("id-%d", c20NSBase+3*b+a)})
 		case x < 67:
 			do(c20op{Op: "has", Inst: inst(), ID: pickID()})
 		case x < 72 && len(e.insts) < p.maxInst:
@@ -780,6 +809,12 @@ func runC20(seed int64, tier string, outDir string) *result {
 	list := &caseList{name: "hist_cases", typ: "hist_case", checker: "mismatches_hist"}
 	var sizes, idCounts []int
 	flavours := map[string]int{}
+	if replayFile == "" {
+		c20SpecialIdentities(run, func(mon, key, detail string) {
+			res.Failures = append(res.Failures, monitorFailure{Property: "C20", Monitor: mon, Detail: detail, Key: key,
+				Case: map[string]interface{}{"scenario": "identity whose key has a leading zero coordinate (deterministic search, seed 20200202)"}})
+		})
+	}
 	finish := func(e *c20env, flavour string) {
 		lab := fmt.Sprintf("%s: %d ops, %d keys, %d keystores", e.label, len(e.ops), len(e.keys), len(e.insts))
 		if len(e.ops) <= 40 {
@@ -892,4 +927,85 @@ func runC20(seed int64, tier string, outDir string) *result {
 		res.Samples = append(res.Samples, list.labels[len(list.labels)-1])
 	}
 	return res
+}
+
+// c20SpecialIdentities: identities whose identity key has a public point with a leading zero byte in
+// X or in Y (1 key in 128 each; found by a deterministic search and put into the datastore the way
+// CreateKey stores keys).  The published key must still be the 65-byte uncompressed form, and the three
+// signature facts and entry verification must hold as for any other key.
+func c20SpecialIdentities(run *c20run, fail func(mon, key, detail string)) {
+	ctx := context.Background()
+	rd := rand.New(rand.NewSource(20200202))
+	want := map[string]int{"X": 1, "Y": 33}
+	found := map[string]crypto.PrivKey{}
+	for tries := 0; tries < 20000 && len(found) < 2; tries++ {
+		priv, pub, err := crypto.GenerateSecp256k1Key(rd)
+		if err != nil {
+			panic(err)
+		}
+		raw, _ := pub.Raw()
+		pk, err := btcec.ParsePubKey(raw, btcec.S256())
+		if err != nil {
+			panic(err)
+		}
+		un := pk.SerializeUncompressed()
+		for name, off := range want {
+			if _, ok := found[name]; !ok && un[off] == 0 {
+				found[name] = priv
+			}
+		}
+	}
+	for _, name := range []string{"X", "Y"} {
+		special, ok := found[name]
+		if !ok {
+			continue
+		}
+		run.evals++
+		run.classes["identity-key-with-leading-zero-"+name] = struct{}{}
+		ds := dssync.MutexWrap(datastore.NewMapDatastore())
+		ks, err := keystore.NewKeystore(ds)
+		if err != nil {
+			panic(err)
+		}
+		uid := "special-" + name
+		root, err := ks.CreateKey(ctx, uid)
+		if err != nil {
+			panic(err)
+		}
+		rootPub, _ := root.GetPublic().Raw()
+		sb, _ := special.Raw()
+		if err := ds.Put(ctx, datastore.NewKey(hex.EncodeToString(rootPub)), sb); err != nil {
+			panic(err)
+		}
+		idn, err := idp.CreateIdentity(ctx, &idp.CreateIdentityOptions{Keystore: ks, ID: uid, Type: "orbitdb"})
+		what := fmt.Sprintf("identity whose key has a public point with %s starting with 00", name)
+		if err != nil {
+			fail("identity-creation", "C20:createidentity-error", what+": "+err.Error())
+			continue
+		}
+		if len(idn.PublicKey) != 65 {
+			fail("id-signature", "C20:published-key-unparsable", fmt.Sprintf("%s: published key has %d bytes, not 65", what, len(idn.PublicKey)))
+		}
+		pub := c20pub(idn.PublicKey)
+		if pub == nil {
+			fail("id-signature", "C20:published-key-unparsable", what+": PublicKey does not parse")
+		} else if ok, err := pub.Verify([]byte(idn.ID), idn.Signatures.ID); err != nil || !ok {
+			fail("id-signature", "C20:id-sig-fails", fmt.Sprintf("%s: Signatures.ID does not verify under PublicKey (%v)", what, err))
+		}
+		if rawID, herr := hex.DecodeString(idn.ID); herr == nil {
+			if idPub := c20pub(rawID); idPub != nil {
+				msg := []byte(hex.EncodeToString(append(append([]byte{}, idn.PublicKey...), idn.Signatures.ID...)))
+				if ok, err := idPub.Verify(msg, idn.Signatures.PublicKey); err != nil || !ok {
+					fail("pubkey-signature", "C20:pk-sig-fails", fmt.Sprintf("%s: Signatures.PublicKey does not verify under the key the ID denotes (%v)", what, err))
+				}
+			}
+		}
+		api, _ := newAPI()
+		en, err := entry.CreateEntry(ctx, api, idn, &entry.Entry{LogID: "c20", Payload: []byte("signed with " + uid)}, nil)
+		if err != nil {
+			fail("entry-verifies", "C20:entry-sig-fails", what+": CreateEntry: "+err.Error())
+		} else if err := en.(*entry.Entry).Verify(idn.Provider, nil); err != nil {
+			fail("entry-verifies", "C20:entry-sig-fails", what+": an entry signed with it does not verify: "+err.Error())
+		}
+	}
 }
